@@ -58,7 +58,10 @@ fn build(cn: &str, san: Option<&str>, ca: bool, not_before: i64, not_after: i64,
     if let Some(s) = san {
         let ext = {
             let ctx = b.x509v3_context(issuer.map(|i| i.cert.as_ref()), None);
-            SubjectAlternativeName::new().dns(s).build(&ctx).unwrap()
+            match s.strip_prefix("ip:") {
+                Some(ip) => SubjectAlternativeName::new().ip(ip).build(&ctx).unwrap(),
+                None => SubjectAlternativeName::new().dns(s).build(&ctx).unwrap(),
+            }
         };
         b.append_extension(ext).unwrap();
     }
@@ -108,7 +111,7 @@ pub struct Pki {
     pub servers: Vec<(&'static str, Identity)>,
 }
 
-pub const SERVER_KINDS: [&str; 5] = ["valid", "wrong-host", "expired", "self-signed", "unknown-ca"];
+pub const SERVER_KINDS: [&str; 6] = ["valid", "wrong-host", "expired", "self-signed", "unknown-ca", "valid-for-ip-127.0.0.1"];
 
 impl Pki {
     pub fn new() -> Pki {
@@ -122,6 +125,7 @@ impl Pki {
             ("expired", build("localhost", Some("localhost"), false, t - 10 * DAY, t - DAY, Some(&ca))),
             ("self-signed", build("localhost", Some("localhost"), false, t - DAY, t + 3650 * DAY, None)),
             ("unknown-ca", build("localhost", Some("localhost"), false, t - DAY, t + 3650 * DAY, Some(&hidden_ca))),
+            ("valid-for-ip-127.0.0.1", build("127.0.0.1", Some("ip:127.0.0.1"), false, t - DAY, t + 3650 * DAY, Some(&ca))),
         ];
         let ca_der_ws = same_anchor_der_ending_in_whitespace(&ca);
         Pki {
